@@ -320,7 +320,7 @@ func c04Cut(r *fw.R, d c04Desc, s *Script, stream []byte, k int, fk xport.FaultK
 	}
 	ref := &wire.RefEndpoint{Server: d.Role == RoleServer, P: d.Params, Limit: limit}
 	effects, term := ref.Run(stream[:k])
-	ctx, cancel := deadlineCtx(30 * time.Second)
+	ctx, cancel := deadlineCtx(90 * time.Second) // (30 s until a thorough run on an overloaded machine reported read-never-returned once)
 	defer cancel()
 
 	pos := "frame-boundary"
